@@ -421,29 +421,55 @@ def replay_real(run, case, pctx, name, lhs, rhs, assign):
         return True, detail
     oname, idx = name.split('#')[0], name.split('#')[1].split('@')[0]
 
+    hook = case.get('_native_lhs')
+
     def pick(res):
         if 'outputs' not in res:
             return None
+        if hook is not None:
+            # obligations that are identities over several outputs: the left-hand side is
+            # recomputed from the native run's outputs by the caller's hook
+            return hook(res, name.split('@')[0], fa)
         for (n, leaves) in res['outputs']:
             if n == oname:
                 v = leaves[int(idx)]
                 return 0.0 if v is None else float(v)
         return None
     got, got32 = pick(nat), pick(nat32)
+    want_cmp, want_cmp32 = want, want
+    if hook is not None and got is not None:
+        # identity over several outputs: both sides are recomputed from the native run's outputs
+        got, want_nat = got
+        got32, want_nat32 = got32 if got32 is not None else (None, None)
+        detail['native_rhs_f64'] = repr(want_nat)
+        if want_nat != want_nat:
+            got = float('nan')
+        else:
+            want_cmp = mpmath.mpf(want_nat)
+        if want_nat32 is not None and want_nat32 == want_nat32:
+            want_cmp32 = mpmath.mpf(want_nat32)
     detail['native_f64'] = repr(got)
     detail['native_f32'] = repr(got32)
     if got is None:
         return False, detail
     if got != got or got in (float('inf'), float('-inf')):
-        return True, detail   # NaN / inf where the mathematical value is finite
-    scale = max(abs(want), abs(impl_real) if impl_real == impl_real else 0, mpmath.mpf(1e-300))
-    diff = abs(mpmath.mpf(got) - want)
+        # NaN / inf where the mathematical value is finite: a violation when the implementation's
+        # expression is undefined in exact arithmetic as well (0/0, 0*inf at a special point) or
+        # differs from the oracle there. If the exact value of the implementation's expression
+        # equals the oracle, the NaN comes from an intermediate overflow/underflow of the float
+        # evaluation at a far-out witness (exp(210)^4 ...): range effects are outside the claim.
+        if impl_real == impl_real and abs(impl_real - want) <= mpmath.mpf('1e-9') * max(abs(want), mpmath.mpf(1e-300)):
+            detail['note'] = 'native NaN/inf from intermediate overflow; exact value of the implementation equals the oracle'
+            return False, detail
+        return True, detail
+    scale = max(abs(want), abs(want_cmp), abs(impl_real) if impl_real == impl_real else 0, mpmath.mpf(1e-300))
+    diff = abs(mpmath.mpf(got) - want_cmp)
     detail['abs_diff'] = mpmath.nstr(diff, 8)
     ok = diff > mpmath.mpf('1e-7') * scale and not f32_only
     if not ok and got32 is not None and got32 == got32:
         # the symbolic epsilon covers f32 as well: a witness may only live in the f32 instantiation
         # (e.g. an argument between the f64 and the f32 machine epsilon)
-        d32 = abs(mpmath.mpf(got32) - want)
+        d32 = abs(mpmath.mpf(got32) - want_cmp32)
         if d32 > mpmath.mpf('1e-3') * scale:
             ok = True
             detail['reproduced_in'] = 'f32'
